@@ -88,7 +88,7 @@ func runC05(w *fw.Worker) {
 		ctx := e.S.Ctx
 		mon := newSerialMon()
 		mon.see(0, e.D.View(), "initial View")
-		e.ExtraHook = func(name string, args []any) {
+		e.ExtraHook = func(name string, _ context.Context, args []any) {
 			if name == "mon.stored" && len(args) >= 3 {
 				serial, _ := args[1].(uint64)
 				cfg, _ := args[2].(*conc.Cfg)
